@@ -96,7 +96,12 @@ def vstructure_rules(rep, prog):
               "(min(i,j), c, max(i,j)) recorded exactly when A[i,j] == 0 and A[j,i] == 0",
               "v-structure test/tuple deviates from `unshielded, (min, c, max)`: " + why)
     rets = S.select("return", qname=q)
-    ok = len(rets) == 1 and rets[0].value[0] == "ext" and rets[0].value[1] in ("set", "frozenset") and outer["init"].get("vstructs", ("list", ())) == ("list", ())
+    acc = [k for k, v in outer["init"].items() if v in (("list", ()), ("ext", "set", (), ()), ("set", ()))]
+    lo_id = [k for k, v in S.loopinfo.items() if v is outer][0]
+    full = [("after", lo_id, k) for k in acc]
+    rv = rets[0].value if len(rets) == 1 else ("const", None)
+    # the whole accumulated collection, as a set (or the accumulated set itself)
+    ok = len(acc) == 1 and ((rv[0] == "ext" and rv[1] in ("set", "frozenset") and len(rv[2]) == 1 and rv[2][0] in full) or (rv in full and outer["init"][acc[0]] != ("list", ())))
     rep.check("VS.result", ok, fwhere(f), "returns the set of recorded triples", "result is not the set of recorded triples")
 
 
